@@ -60,8 +60,8 @@ def configs(ctx):
             c["evaluator"] = rng.choice(["map", "map", "copy", "thread"])
             cfgs.append(T.finalize(c, rng))
     for alg in T.ALGORITHMS:                       # heavy extreme draws (velocity coefficients, Gaussian samples, shuffles)
-        kinds = ["real"] if alg in T.REAL_ONLY else list(T.KINDS)
-        for k in kinds if ctx.thorough or alg in T.REAL_ONLY else [rng.choice(kinds)]:
+        kinds = [k for k in T.KINDS if T.applicable(alg, k)]
+        for k in (kinds if ctx.thorough or alg in T.REAL_ONLY else [rng.choice(kinds)]):
             for p in (0.5, 0.9):
                 cfgs.append(T.finalize({"alg": alg, "kind": k, "cons": "none", "maximize": False, "variator": "default", "script": p,
                                         "evaluator": "map", "steps": 25, "timeout": 90}, rng))
@@ -71,7 +71,7 @@ def configs(ctx):
                                     "evaluator": "map", "steps": 20}, rng))
             cfgs.append(T.finalize({"alg": "NSGAII", "kind": k, "cons": "none", "maximize": True, "variator": "explicit", "archive": True,
                                     "restart": True, "inject": True, "evaluator": "map", "steps": 20}, rng))
-            for alg in ("GA", "SPEA2", "PESA2", "MOEAD", "EpsMOEA") + (("SMPSO",) if k == "real" else ()):
+            for alg in ("GA", "SPEA2", "PESA2", "MOEAD", "EpsMOEA") + (("SMPSO",) if k in T.REAL_KINDS else ()):
                 cfgs.append(T.finalize({"alg": alg, "kind": k, "cons": "none", "maximize": False, "variator": "default", "inject": True,
                                         "evaluator": "map"}, rng))
     return cfgs
@@ -214,8 +214,10 @@ def run(ctx):
                        "model and ParticleSwarm._update_positions differ on %r" % [pso_lits[i] for i in bad[:3]])
     bad = C.run_coq_cases(ctx, "cma", IMPORTS, "c07cma", "c07cma_check", cma_lits)
     if bad is not None:
-        ctx.obligation("correspondence:cma_sample(%d samples)" % len(cma_lits), "correspondence", not bad,
-                       "model and CMAES.sample differ on %r" % [cma_lits[i] for i in bad[:3]])
+        dis = cma_stats.pop("disagreements", [])
+        ctx.obligation("correspondence:cma_sample(%d samples)" % len(cma_lits), "correspondence", not bad and not dis,
+                       "model and CMAES.sample differ on %r; implementation asked for more draws than the modelled loop on %r" % (
+                           [cma_lits[i] for i in bad[:3]], dis[:2]))
     phase["coq_s"] = round(time.time() - t0, 1)
     ctx.coverage.update({
         "phase_seconds": phase,
@@ -231,7 +233,7 @@ def run(ctx):
         "finding_candidates": candidates[:10],
         "finding_candidates_count": len(candidates),
     })
-    ctx.rule = ("runs: the whole grid algorithm(15) x variable type(6 incl. mixed Binary+Integer; Real only for GDE3/OMOPSO/SMPSO/CMAES) x "
+    ctx.rule = ("runs: the whole grid algorithm(15) x variable type(7 incl. mixed Binary+Integer and very narrow Real ranges; Real only for GDE3/OMOPSO/SMPSO/CMAES) x "
                 "{unconstrained, constrained} x {min, max} x {default, explicit operator} (thorough: x6), evaluator/seed/size/scripted-extreme-"
                 "probability from ctx.rng, plus heavy-extreme-draw (p=0.5, 0.9), restart and injected-population specials; every call of the "
                 "user function is logged; non-trivial run = >= 10 calls, distinct by configuration incl. seed. Function cases: registry = "
